@@ -281,6 +281,7 @@ func generate() {
 		run.Extra["named_pairs"] = npairs
 	}
 	accountHistories(thorough, bbsLayer)
+	heldHistories(thorough, bbsLayer)
 	// ---- random words ------------------------------------------------------------------------------
 	nrand := 1500
 	if thorough {
@@ -351,6 +352,8 @@ func generate() {
 		"xread LoadHotBoards 2 3 17 0 2 0 0 0", "xread ReadPost 0 3 17 0 2 0 0 0", "xreadb ReadPost 2 1 17 0 2 0 0 0", "xreadc ReadPost 2 3 17 0 2 0 0 0",
 		"nlist LoadBoardDetail 2 17 0 2 0 0 6 61", "nlist LoadBoardDetail 2 17 0 2 0 0 zz 61", "nlist ReadPost 2 17 0 2 0 0 61 61",
 		"nlist LoadBoardDetail 2 17 0 2 0 0 6161616161616161616161616161 61", "nlist LoadBoardDetail 2 17 0 2 0 0 61",
+		"recheck 0", "hold 8 LoadHotBoards 2 17 0 2 0 0 0", "hold 0 LoadBoardSummary 2 17 0 2 0 0 0", "hold 0 LoadHotBoards 2 17 0 2 0 0", "recheck x", "stress 10", "stress 0",
+		"hold 0 LoadHotBoards 2 17 0 2 0 0 0", "recheck 0", "recheck 1", "recheck 0 0",
 		"users", "users 1:6162 1:6364", "users 1:6162 2:4142", "users 0:6162", "users 1:61", "users 1:3161", "users 1:61622e", "users 1:6162:63", "users 51:6162",
 		"sread ReadPost 6162 17 0 2", "mread ReadPost 2 17 0 2 0", "resetbm 2 0 0 6162", "users 2:726561646572", "resetbm 3 0 0 6162", "resetbm 2 0 0 zz",
 		"mread ReadPost 2 17 0 2 0", "resetbm 2 48 0 726561646572", "mread ReadPost 2 17 0 2 0", "mread ReadPost 2 17 0 9 0", "mread ReadPost 4 17 0 2 0",
@@ -570,4 +573,71 @@ func accountHistories(thorough, bbsLayer bool) {
 		nh++
 	}
 	run.Extra["moderator_histories"] = nh
+}
+
+// heldHistories: a caller keeps the list a listing returned while other callers list; the kept list must stay what it
+// was.  ptt layer: hold / later listings / recheck.  bbs layer: a short concurrent stress.
+func heldHistories(thorough, bbsLayer bool) {
+	P := func(p ptttype.PERM) uint32 { return uint32(p) }
+	A := func(a ptttype.BrdAttr) uint32 { return uint32(a) }
+	hidden := A(ptttype.BRD_HIDE) | A(ptttype.BRD_POSTMASK)
+	if bbsLayer {
+		n := 120
+		if thorough {
+			n = 2500
+		}
+		for _, b := range [][2]uint32{{hidden, 0}, {0, bitLacks}} {
+			emit("reset")
+			emit(fmt.Sprintf("setb %d %d %d", bidTarget, b[0], b[1]))
+			emit(fmt.Sprintf("stress %d", n))
+		}
+		return
+	}
+	plain := P(ptttype.PERM_BASIC) | P(ptttype.PERM_LOGINOK) | bitHas
+	type who struct {
+		ulevel             uint32
+		bmc, friend, named int
+	}
+	others := []who{{plain | P(ptttype.PERM_SYSOP), 0, 0, 0}, {plain, 1, 0, 0}, {plain, 0, 1, 0}, {plain | P(ptttype.PERM_BOARD), 0, 0, 0}, {plain, 0, 0, 1}}
+	call := func(op, fn string, bid ptttype.Bid, w who) string {
+		return fmt.Sprintf("%s %s %d %d 0 %d %d %d %d", op, fn, bid, w.ulevel, uidReader, w.bmc, w.friend, w.named)
+	}
+	fns := []string{"LoadGeneralBoards", "LoadBoardsByBids", "LoadHotBoards"}
+	if thorough {
+		fns = holdFns
+	}
+	reps := 2
+	if thorough {
+		reps = 6
+	}
+	nh := 0
+	for rep := 0; rep < reps; rep++ {
+		for _, fn := range fns {
+			bid, attr := bidTarget, hidden
+			if fn == "LoadFullClassBoards" || fn == "LoadClassBoards" {
+				bid, attr = bidGroup, hidden|A(ptttype.BRD_GROUPBOARD)
+			}
+			for _, board := range [][2]uint32{{attr, 0}, {attr &^ hidden, bitLacks}} {
+				for _, o := range others {
+					emit("reset")
+					emit(fmt.Sprintf("setb %d %d %d", bid, board[0], board[1]))
+					// the plain caller's list is kept while a privileged caller lists, and the other way round
+					emit(call("hold 0", fn, bid, who{plain, 0, 0, 0}))
+					emit(call("list", fn, bid, o))
+					emit("recheck 0")
+					emit(call("hold 1", fn, bid, o))
+					emit(call("list", fn, bid, who{plain, 0, 0, 0}))
+					emit("recheck 1")
+					emit("recheck 0")
+					emit(call("hold 2", fn, bid, who{plain, 0, 0, 0}))
+					emit(call("list", "LoadBoardsByBids", bid, o))
+					emit(call("list", "LoadGeneralBoards", bid, o))
+					emit("recheck 2")
+					emit("recheck 1")
+					nh++
+				}
+			}
+		}
+	}
+	run.Extra["held_histories"] = nh
 }
